@@ -7,7 +7,12 @@
    yields (first = the engine's frame for the phase point it was started from); the engine
    OBJECT each call is made on is an output of the model ([c_eng]: E0 = engines[-1][0], the
    [0-] engine; E1 = engines[0][0], the [0+] engine).  The reversibility theorems come in two
-   forms: one dynamics for both ensembles, and two different dynamics (T0, R0) / (T1, R1). *)
+   forms: one dynamics for both ensembles, and two different dynamics (T0, R0) / (T1, R1).
+   The two length limits are separate inputs: e_maxlen e0 = tis_set["maxlength"] of [0-],
+   e_maxlen e1 = that of [0+] (retis_swap_zero reads both; quantis_swap_zero reads the [0-] one
+   twice).  Validity and limit theorems are stated for e_maxlen e0 <= e_maxlen e1 (infretis hands
+   both ensembles one shared tis_set, so the limits are equal there); what happens for
+   e_maxlen e0 > e_maxlen e1 is recorded by the two ..._limit_order_refuted witnesses below. *)
 From Coq Require Import ZArith QArith List Bool Lia.
 Import ListNotations.
 From Inf Require Import model.PathM model.EngineM model.WeightM model.SwapM proofs.PathP proofs.SwapP.
@@ -151,6 +156,75 @@ Theorem C11_swap_valid : forall dumpf e0 e1 old0 old1 streams draws sp0 sp1 st c
 Proof. exact retis_swap_valid_move. Qed.
 Print Assumptions C11_swap_valid.
 
+(* ------------------------------------------------------------------ the two length limits *)
+
+(* A swap that cannot complete a new path below that path's OWN limit is rejected with the
+   corresponding status (MD allowed, no early exit, maxlength([0-]) <= maxlength([0+])):
+   - if none of the first maxlength([0-]) - 1 frames of the backward run lies beyond a [0-]
+     interface, the new [0-] path fills its limit and the move is rejected with BTX;
+   - if none of the first maxlength([0+]) - 1 frames of the forward run lies beyond a [0+]
+     interface, the new [0+] path reaches its limit, gets status FTX and the move is rejected —
+     with status FTX unless the [0-] path was already rejected (BTX, BTS, 0-L take precedence). *)
+Theorem C11_swap_limit_reject : forall dumpf e0 e1 old0 old1 s0 s1 rest draws acc sp0 sp1 st calls nd,
+  retis_swap_zero dumpf e0 e1 old0 old1 (s0 :: s1 :: rest) draws = Out acc sp0 sp1 st calls nd ->
+  lm1_early e0 (sp_path old0) = false ->
+  end_point (sp_path old0) (e_i0 e0) (e_i2 e0) = Some SR ->
+  (e_maxlen e0 <= e_maxlen e1)%nat ->
+  ((forall f, In f (firstn (e_maxlen e0 - 1) s0) -> crossedb (e_i0 e0) (e_i2 e0) f = false) ->
+     acc = false /\ st = BTX /\ sp_status sp0 = BTX /\ plen (sp_path sp0) = e_maxlen e0) /\
+  ((forall f, In f (firstn (e_maxlen e1 - 1) s1) -> crossedb (e_i0 e1) (e_i2 e1) f = false) ->
+     acc = false /\ sp_status sp1 = FTX /\ (e_maxlen e1 <= plen (sp_path sp1))%nat /\
+     (plen (sp_path sp0) = e_maxlen e0 /\ st = BTX \/
+      plen (sp_path sp0) <> e_maxlen e0 /\ (st = FTX /\ sp_status sp0 = FTX \/ st = BTS \/ st = ZML))).
+Proof. exact retis_swap_limit_reject. Qed.
+Print Assumptions C11_swap_limit_reject.
+
+(* The limit ORDER is needed (recorded finding): the container of the backward run that builds
+   the new [0-] path is sized with the [0+] limit ("path_tmp = path_old1.empty_path(maxlen=maxlen1 - 1)"),
+   so with maxlength([0-]) > maxlength([0+]) a backward run cut off by the [0+] limit gives a
+   [0-] path of maxlength([0+]) frames that is below ITS limit, gets ACC, and the swap is accepted
+   with a new [0-] path whose first frame is still inside the interfaces.
+   Witness: limits 12 / 5, old paths 3 1 0 4 / 1 3 5 6, backward run 1 0 2 1 0 7: accepted with the
+   new [0-] path 1 2 0 1 3 (5 frames; complete it would be 7 0 1 2 0 1 3). *)
+Theorem C11_swap_valid_limit_order_refuted :
+  exists dumpf e0 e1 old0 old1 streams sp0 sp1 calls,
+    (e_maxlen e1 < e_maxlen e0)%nat /\ e_i0 e0 <= e_i1 e0 <= e_i2 e0 /\
+    minus_valid e0 (sp_path old0) /\ plus_valid e1 (sp_path old1) /\
+    retis_swap_zero dumpf e0 e1 old0 old1 streams [] = Out true sp0 sp1 ACC calls 0 /\
+    plen (sp_path sp0) = e_maxlen e1 /\
+    exists a rest, orders (sp_path sp0) = a :: rest /\ e_i0 e0 <= a <= e_i2 e0.
+Proof. exact swap_valid_limit_order_refuted. Qed.
+Print Assumptions C11_swap_valid_limit_order_refuted.
+
+(* The variant that sizes the container of the FORWARD run (the new [0+] path) with the [0-] limit
+   ("path_tmp = path0.empty_path(maxlen=maxlen0 - 1)", SwapM.retis_swap_zero_fwd_minus_limit) violates
+   C11_swap_valid inside its hypotheses: with maxlength([0-]) < maxlength([0+]) a forward run cut off
+   by the [0-] limit gives a [0+] path below ITS limit, the swap is accepted, and the last frame of
+   the new [0+] path is still inside [lambda_0, lambda_N].
+   Witness: limits 6 / 12, old paths 3 1 0 4 / 1 3 5 6, forward run 4 5 3 4 5 3 1: the variant accepts
+   0 4 5 3 4 5, the code (same input) accepts the complete path 0 4 5 3 4 5 3 1. *)
+Theorem C11_forward_segment_minus_limit_refuted :
+  exists dumpf e0 e1 old0 old1 streams sp0 sp1 calls,
+    (e_maxlen e0 < e_maxlen e1)%nat /\ e_i0 e0 <= e_i1 e0 <= e_i2 e0 /\
+    minus_valid e0 (sp_path old0) /\ plus_valid e1 (sp_path old1) /\
+    retis_swap_zero_fwd_minus_limit dumpf e0 e1 old0 old1 streams [] = Out true sp0 sp1 ACC calls 0 /\
+    (3 <= plen (sp_path sp1) < e_maxlen e1)%nat /\
+    (exists pre b, orders (sp_path sp1) = pre ++ [b] /\ e_i0 e1 <= b <= e_i2 e1) /\
+    ~ (exists a mid b, orders (sp_path sp1) = a :: mid ++ [b] /\ (b < e_i0 e1 \/ e_i2 e1 < b)) /\
+    exists sp0' sp1' calls',
+      retis_swap_zero dumpf e0 e1 old0 old1 streams [] = Out true sp0' sp1' ACC calls' 0 /\
+      orders (sp_path sp1') = [0; 4; 5; 3; 4; 5; 3; 1].
+Proof. exact forward_segment_minus_limit_refuted. Qed.
+Print Assumptions C11_forward_segment_minus_limit_refuted.
+
+(* the variant differs from the code in that one place only: the code's functions are the
+   variant definitions at the code's value of the parameter *)
+Theorem C11_variant_is_code_at_plus_limit : forall dumpf e0 e1,
+  retis_path1 dumpf e0 e1 = retis_path1_seg dumpf (e_maxlen e1 - 1) e0 e1 /\
+  retis_swap_zero dumpf = retis_swap_zero_with dumpf (retis_path1 dumpf).
+Proof. intros. split; [apply retis_path1_is_seg|apply retis_swap_zero_is_with]. Qed.
+Print Assumptions C11_variant_is_code_at_plus_limit.
+
 (* ------------------------------------------------------------------ lambda_-1: early rejection *)
 
 (* the early-exit test is exactly: start_cond = {L, R} and the [0-] path ends at or below lambda_-1 *)
@@ -227,6 +301,35 @@ Theorem C11_quantis_junction : forall vpot_of expf e0 e1 b0 b1 old0 old1 streams
     st = ACC /\ length calls = 4%nat /\ map c_eng calls = [E0; E1; E0; E1].
 Proof. exact quantis_junction. Qed.
 Print Assumptions C11_quantis_junction.
+
+(* ... hence both new paths are below their OWN limits when maxlength([0-]) <= maxlength([0+]) *)
+Theorem C11_quantis_own_limits : forall vpot_of expf e0 e1 b0 b1 old0 old1 streams draws p0 p1 st calls nd,
+  quantis_swap_zero vpot_of expf e0 e1 b0 b1 old0 old1 streams draws = Out true p0 p1 st calls nd ->
+  first_frame_honest streams calls ->
+  (e_maxlen e0 <= e_maxlen e1)%nat ->
+  (3 <= plen (sp_path p0) < e_maxlen e0)%nat /\ (3 <= plen (sp_path p1) < e_maxlen e1)%nat.
+Proof. exact quantis_own_limits. Qed.
+Print Assumptions C11_quantis_own_limits.
+
+(* The limit order is needed (recorded finding): quantis_swap_zero reads the [0-] limit for both
+   paths ("maxlen1 = ens_set0["tis_set"]["maxlength"]").  With maxlength([0-]) > maxlength([0+])
+   it accepts a new [0+] path that is not below the [0+] limit (witness: limits 8 / 4, new [0+]
+   path 0 3 4 1 of 4 frames); with maxlength([0-]) < maxlength([0+]) it rejects with FTX a new
+   [0+] path that is below the [0+] limit (witness: limits 5 / 8, new [0+] path of 5 frames). *)
+Theorem C11_quantis_limit_order_refuted :
+  (exists vpot_of expf e0 e1 b0 b1 old0 old1 streams draws p0 p1 calls,
+     (e_maxlen e1 < e_maxlen e0)%nat /\
+     quantis_swap_zero vpot_of expf e0 e1 b0 b1 old0 old1 streams draws = Out true p0 p1 ACC calls 1 /\
+     first_frame_honest streams calls /\
+     (e_maxlen e1 <= plen (sp_path p1))%nat) /\
+  (exists vpot_of expf e0 e1 b0 b1 old0 old1 streams draws p0 p1 calls,
+     (e_maxlen e0 < e_maxlen e1)%nat /\
+     quantis_swap_zero vpot_of expf e0 e1 b0 b1 old0 old1 streams draws = Out false p0 p1 FTX calls 1 /\
+     sp_status p0 = ACC /\ sp_status p1 = FTX /\
+     (3 <= plen (sp_path p1) < e_maxlen e1)%nat /\
+     exists pre b, orders (sp_path p1) = pre ++ [b] /\ b < e_i0 e1).
+Proof. exact quantis_limit_order_refuted. Qed.
+Print Assumptions C11_quantis_limit_order_refuted.
 
 (* Whatever the outcome, the propagate calls of the QuanTIS swap are made on engine0, engine1,
    engine0, engine1 in this order (a prefix when the move stops early): one step and the backward
@@ -385,6 +488,30 @@ Proof.
   split; [|reflexivity].
   intros [|[|k]] c s g Hc Hs Hg; cbn in Hc, Hs; try (destruct k; discriminate);
     injection Hc as <-; injection Hs as <-; injection Hg as <-; reflexivity.
+Qed.
+
+(* different limits for the two ensembles, maxlength([0-]) = 6 < maxlength([0+]) = 12: the old paths
+   3 1 0 4 / 1 3 5 6 are swapped to 7 2 0 1 3 (5 frames, below 6) / 0 4 5 3 4 5 3 1 (8 frames: more
+   than the [0-] limit, below the [0+] limit); with maxlength([0-]) = 5 the same runs are rejected
+   BTX, with maxlength([0+]) = 8 rejected FTX (each path is measured against its own limit) *)
+Example C11_example_unequal_limits :
+  (e_maxlen Limits.e0 < e_maxlen Limits.e1)%nat /\
+  (exists sp0 sp1 calls,
+    retis_swap_zero ex_dump Limits.e0 Limits.e1 Limits.old0 Limits.old1 Limits.streams [] = Out true sp0 sp1 ACC calls 0 /\
+    orders (sp_path sp0) = [7; 2; 0; 1; 3] /\ orders (sp_path sp1) = [0; 4; 5; 3; 4; 5; 3; 1] /\
+    (plen (sp_path sp0) < e_maxlen Limits.e0 < plen (sp_path sp1))%nat /\ (plen (sp_path sp1) < e_maxlen Limits.e1)%nat /\
+    map c_maxlen calls = [11%nat; 11%nat]) /\
+  (exists sp0 sp1 calls,
+    retis_swap_zero ex_dump (Limits.with_maxlen Limits.e0 5) Limits.e1 Limits.old0 Limits.old1 Limits.streams [] = Out false sp0 sp1 BTX calls 0) /\
+  (exists sp0 sp1 calls,
+    retis_swap_zero ex_dump Limits.e0 (Limits.with_maxlen Limits.e1 8) Limits.old0 Limits.old1 Limits.streams [] = Out false sp0 sp1 FTX calls 0 /\
+    sp_status sp1 = FTX).
+Proof.
+  split; [vm_compute; lia|]. split; [|split].
+  - eexists _, _, _. split; [vm_compute; reflexivity|]. split; [reflexivity|]. split; [reflexivity|].
+    split; [vm_compute; lia|]. split; [vm_compute; lia|]. reflexivity.
+  - eexists _, _, _. vm_compute. reflexivity.
+  - eexists _, _, _. split; [vm_compute; reflexivity|]. reflexivity.
 Qed.
 
 (* lambda_-1 variant, [0-] path ending on the left: rejected before any engine call *)
